@@ -4,13 +4,16 @@ import (
 	"crypto/sha256"
 	"encoding/binary"
 	"encoding/json"
+	"errors"
 	"fmt"
 	"net/url"
 	"os"
+	"strconv"
 	"strings"
 	"testing"
 
 	ct "github.com/google/certificate-transparency-go"
+	"github.com/google/certificate-transparency-go/trillian/ctfe"
 	"github.com/google/trillian"
 	"github.com/google/trillian/types"
 	"google.golang.org/grpc/codes"
@@ -32,10 +35,16 @@ type FaultCase struct {
 			Code  int    `json:"code"`
 			Class string `json:"class"`
 			Echo  *Echo  `json:"echo"`
+			// a get-proof-by-hash reply described proof by proof (CTFEFaults!ProofLists)
+			Proofs []ProofDesc `json:"proofs"`
 		} `json:"fault"`
 		Pos   int    `json:"pos"`
 		Mask  bool   `json:"mask"`
 		Class string `json:"class"`
+		// the configured InstanceOptions.ErrorMapper (CTFEFaults!Mappers; "" = none) and what it says to the injected
+		// error (0: it declines / there is none)
+		Mapper string `json:"mapper"`
+		Mapped int    `json:"mapped"`
 	} `json:"c"`
 	Expect string `json:"expect"`
 }
@@ -48,6 +57,156 @@ type Echo struct {
 	Len       string `json:"len"`
 	Ext       string `json:"ext"`
 	Body      string `json:"body"`
+}
+
+// ProofDesc mirrors one proof of CTFEFaults!ProofList: the leaf index it is for, whether (and how) one of its nodes has
+// the wrong size, and which node.
+type ProofDesc struct {
+	Idx int    `json:"idx"`
+	Bad string `json:"bad"` // none, size31, size33, empty
+	At  string `json:"at"`  // first, last
+}
+
+// proofListName is the stable description of a proof list: how many proofs, which of them are malformed and how,
+// whether a malformed one is the first, and whether one has the (strictly) lowest leaf index.
+func proofListName(pl []ProofDesc) string {
+	bad, kind, at := "", "", ""
+	lowest, lowestBad, lowestUnique := 0, false, true
+	for i, p := range pl {
+		if p.Bad != "none" {
+			bad += fmt.Sprint(i + 1)
+			kind, at = p.Bad, p.At
+		}
+		switch {
+		case i == 0 || p.Idx < pl[lowest].Idx:
+			lowest, lowestBad, lowestUnique = i, p.Bad != "none", true
+		case p.Idx == pl[lowest].Idx:
+			lowestUnique = false
+			lowestBad = lowestBad || p.Bad != "none"
+		}
+	}
+	order := "equal-indices"
+	if len(pl) > 1 && pl[0].Idx < pl[1].Idx {
+		order = "ascending"
+	} else if len(pl) > 1 && pl[0].Idx > pl[1].Idx {
+		order = "descending"
+	} else if len(pl) == 1 {
+		order = "single"
+	}
+	if bad == "" {
+		return fmt.Sprintf("n=%d,%s,none-malformed", len(pl), order)
+	}
+	name := fmt.Sprintf("n=%d,%s,malformed=%s,%s-node-%s", len(pl), order, bad, at, kind)
+	if lowestBad && lowestUnique && lowest != 0 {
+		name += ",lowest-index-proof-malformed-not-first"
+	}
+	return name
+}
+
+// proofList writes the proofs a description stands for: genuine audit paths of the backend's tree for the described
+// leaf indices at the requested tree size, one node of a malformed proof cut to 31 octets, grown to 33 or emptied.
+func proofList(pl []ProofDesc, tree *ref.Tree, size int) []*trillian.Proof {
+	var out []*trillian.Proof
+	for _, d := range pl {
+		var hashes [][]byte
+		for _, h := range tree.Inclusion(d.Idx, size) {
+			hashes = append(hashes, append([]byte{}, h...))
+		}
+		if len(hashes) < 2 {
+			panic("harness: audit path too short to tell its first node from its last")
+		}
+		k := 0
+		if d.At == "last" {
+			k = len(hashes) - 1
+		}
+		switch d.Bad {
+		case "none":
+		case "size31":
+			hashes[k] = hashes[k][:31]
+		case "size33":
+			hashes[k] = append(hashes[k], 0x5a)
+		case "empty":
+			hashes[k] = []byte{}
+		default:
+			panic("harness: unknown malformed node " + d.Bad)
+		}
+		out = append(out, &trillian.Proof{LeafIndex: int64(d.Idx), Hashes: hashes})
+	}
+	return out
+}
+
+// servedProof judges a 200 answer of get-proof-by-hash to a reply with the described proofs: every node of the
+// audit_path has 32 octets, and (leaf_index, audit_path) is one well-formed proof of the reply.
+func servedProof(body []byte, pl []ProofDesc, sent []*trillian.Proof) (clause, msg string) {
+	var pr ct.GetProofByHashResponse
+	if err := json.Unmarshal(body, &pr); err != nil {
+		return "200-not-json", "the 200 answer does not decode: " + err.Error()
+	}
+	for i, h := range pr.AuditPath {
+		if len(h) != sha256.Size {
+			return "200-malformed-audit-path", fmt.Sprintf("200 answer (leaf_index %d) whose audit_path[%d] has %d octets", pr.LeafIndex, i, len(h))
+		}
+	}
+	for i, p := range sent {
+		if pl[i].Bad != "none" || p.LeafIndex != pr.LeafIndex || len(p.Hashes) != len(pr.AuditPath) {
+			continue
+		}
+		same := true
+		for j := range p.Hashes {
+			same = same && string(p.Hashes[j]) == string(pr.AuditPath[j])
+		}
+		if same {
+			return "", ""
+		}
+	}
+	return "200-not-a-proof-of-the-reply", fmt.Sprintf("200 answer (leaf_index %d, %d nodes) is none of the well-formed proofs the backend sent", pr.LeafIndex, len(pr.AuditPath))
+}
+
+// The ErrorMappers of CTFEFaults!Mappers.  mapperSays is the table (0: declines); errorMapper the function configured.
+func mapperSays(name string, code int) int {
+	switch name {
+	case "partial":
+		switch codes.Code(code) {
+		case codes.NotFound:
+			return 410
+		case codes.Aborted:
+			return 503
+		case codes.Internal:
+			return 502
+		}
+	case "total":
+		switch codes.Code(code) {
+		case codes.Canceled, codes.DeadlineExceeded:
+			return 504
+		case codes.ResourceExhausted:
+			return 429
+		case codes.Unavailable:
+			return 503
+		case codes.InvalidArgument, codes.NotFound, codes.AlreadyExists, codes.PermissionDenied, codes.FailedPrecondition,
+			codes.Aborted, codes.OutOfRange, codes.Unauthenticated:
+			return 422
+		}
+		return 502
+	}
+	return 0
+}
+
+const plainErrorCode = 17 // CTFEFaults!Codes: an error that carries no gRPC status
+
+func errorMapper(name string) func(error) (int, bool) {
+	if name == "" || name == "none" {
+		return nil
+	}
+	return func(err error) (int, bool) {
+		code := plainErrorCode
+		if st, ok := status.FromError(err); ok {
+			code = int(st.Code())
+		}
+		if s := mapperSays(name, code); s != 0 {
+			return s, true
+		}
+		return 0, false
+	}
 }
 
 // Deviations names the ways in which the description is not a v1 MerkleTreeLeaf (the stable part of a fingerprint:
@@ -137,9 +296,12 @@ func garbleRoot(size uint64, hashLen int) *trillian.SignedLogRoot {
 }
 
 // inject turns the honest reply into the fault of the case.
-func inject(fc *FaultCase, rsp proto.Message) (proto.Message, error) {
+func inject(fc *FaultCase, req, rsp proto.Message, be *ctfeenv.Backend) (proto.Message, error) {
 	f := fc.C.Fault
 	if f.Kind == "code" {
+		if f.Code == plainErrorCode {
+			return nil, errors.New("injected backend fault without a gRPC status")
+		}
 		return nil, status.Error(codes.Code(f.Code), "injected backend fault")
 	}
 	switch r := rsp.(type) {
@@ -189,6 +351,8 @@ func inject(fc *FaultCase, rsp proto.Message) (proto.Message, error) {
 			r.Proof = nil
 		case "proofHashSize31":
 			r.Proof.Hashes[0] = r.Proof.Hashes[0][:31]
+		case "proofHashSize33":
+			r.Proof.Hashes[0] = append(append([]byte{}, r.Proof.Hashes[0]...), 0x5a)
 		case "proofHashEmpty":
 			r.Proof.Hashes[0] = nil
 		}
@@ -206,6 +370,8 @@ func inject(fc *FaultCase, rsp proto.Message) (proto.Message, error) {
 			r.Proof[0].Hashes[0] = r.Proof[0].Hashes[0][:31]
 		case "proofHashEmpty":
 			r.Proof[0].Hashes[0] = nil
+		case "proofList":
+			r.Proof = proofList(f.Proofs, be.Tree(), int(req.(*trillian.GetInclusionProofByHashRequest).TreeSize))
 		}
 	case *trillian.GetLeavesByRangeResponse:
 		switch f.Class {
@@ -244,9 +410,10 @@ func inject(fc *FaultCase, rsp proto.Message) (proto.Message, error) {
 }
 
 func inClass(code int, class string) bool {
+	if n, err := strconv.Atoi(class); err == nil {
+		return code == n // an exact status: 429 / 503 / 504 of the property's table, or the configured mapper's word
+	}
 	switch class {
-	case "429", "503", "504":
-		return fmt.Sprint(code) == class
 	case "4xx", "4xx-nobackend":
 		return code >= 400 && code <= 499 && code != 429 && code != 408
 	case "5xx":
@@ -261,9 +428,10 @@ type faultWorld struct {
 	method map[string]string
 }
 
-func newFaultWorld(t *testing.T, mask bool) *faultWorld {
+func newFaultWorld(t *testing.T, mask bool, mapper string) *faultWorld {
 	ids := []string{"p1", "p2", "x1", "x2", "x3"}
-	w, err := NewWorld(t.TempDir(), ids, map[string]bool{"p1": true, "p2": true}, "p256", vh.Rand(11), ctfeenv.Opts{Mask: mask})
+	w, err := NewWorld(t.TempDir(), ids, map[string]bool{"p1": true, "p2": true}, "p256", vh.Rand(11), ctfeenv.Opts{Mask: mask,
+		InstOptsMod: func(io *ctfe.InstanceOptions) { io.ErrorMapper = errorMapper(mapper) }})
 	if err != nil {
 		t.Fatal(err)
 	}
@@ -452,12 +620,23 @@ func TestFaults(t *testing.T) {
 	if err != nil {
 		t.Fatal(err)
 	}
-	rep := vh.NewReport("cctfe-faults", "complete matrix of CTFEFaults.tla: endpoint x backend RPC x (16 gRPC codes + malformed-reply classes) x fault position in a three-request sequence x masking, and endpoint x bad-parameter class; executed on a real instance whose backend replies are rewritten by an interceptor; non-trivial = distinct (endpoint, fault or parameter class, expected status class)")
-	worlds := map[bool]*faultWorld{false: newFaultWorld(t, false), true: newFaultWorld(t, true)}
+	rep := vh.NewReport("cctfe-faults", "complete matrix of CTFEFaults.tla: endpoint x backend RPC x (16 gRPC codes and an error without a gRPC status, each under no / an all-declining / a partial / a total InstanceOptions.ErrorMapper; malformed-reply classes incl. get-proof-by-hash replies of 1-3 proofs with ascending / descending / equal leaf indices and any subset of them malformed) x fault position in a three-request sequence x masking, and endpoint x bad-parameter class; executed on a real instance whose backend replies are rewritten by an interceptor; non-trivial = distinct (endpoint, fault or parameter class, expected status class)")
+	// one instance per configuration: masking on / off x the configured ErrorMapper
+	worlds := map[string]*faultWorld{}
 	for i := range cases {
 		fc := &cases[i]
 		c := fc.C
-		fw := worlds[c.Mask]
+		if c.Mapper == "" {
+			c.Mapper = "none"
+		}
+		wk := fmt.Sprint(c.Mask, "/", c.Mapper)
+		if worlds[wk] == nil {
+			worlds[wk] = newFaultWorld(t, c.Mask, c.Mapper)
+		}
+		fw := worlds[wk]
+		if c.T == "fault" && c.Fault.Kind == "code" && c.Mapped != mapperSays(c.Mapper, c.Fault.Code) {
+			t.Fatalf("harness: mapper %s says %d to code %d, the specification's says %d", c.Mapper, mapperSays(c.Mapper, c.Fault.Code), c.Fault.Code, c.Mapped)
+		}
 		env, be := fw.w.Env, fw.w.Env.Backend
 		if c.T == "param" {
 			method, raw, body := badRequest(fw.w, c.Ep, c.Class)
@@ -481,6 +660,20 @@ func TestFaults(t *testing.T) {
 		fname := c.Fault.Class
 		if c.Fault.Kind == "code" {
 			fname = codes.Code(c.Fault.Code).String()
+			if c.Fault.Code == plainErrorCode {
+				fname = "ErrorWithoutStatus"
+			}
+			if c.Mapper != "none" {
+				// the configuration is part of the fault's name: which mapper, and whether it has an opinion on this error
+				if c.Mapped != 0 {
+					fname += fmt.Sprintf("[mapper=%s:says-%d]", c.Mapper, c.Mapped)
+				} else {
+					fname += fmt.Sprintf("[mapper=%s:declines]", c.Mapper)
+				}
+			}
+		}
+		if c.Fault.Class == "proofList" {
+			fname += "(" + proofListName(c.Fault.Proofs) + ")"
 		}
 		fdesc := fname
 		if c.Fault.Echo != nil {
@@ -489,10 +682,15 @@ func TestFaults(t *testing.T) {
 		}
 		fp := fmt.Sprintf("fault:%s:%s", c.Ep, fname)
 		seen := 0
+		var sentProofs []*trillian.Proof
 		be.Intercept = func(seq int, method string, req, rsp proto.Message, err error) (proto.Message, error) {
 			seen++
 			if seen == c.Pos {
-				return inject(fc, rsp)
+				out, oerr := inject(fc, req, rsp, be)
+				if r, ok := out.(*trillian.GetInclusionProofByHashResponse); ok {
+					sentProofs = r.Proof
+				}
+				return out, oerr
 			}
 			return rsp, err
 		}
@@ -521,6 +719,21 @@ func TestFaults(t *testing.T) {
 						rep.Violate(fp+":requestlog-status", fmt.Sprintf("RequestLog.Status %v for HTTP %d", rl.Statuses, code), fc)
 					}
 					continue
+				}
+			} else if fc.Expect == "5xx-or-wellformed" {
+				// named clause ServedProofUnasserted: 5xx, or one well-formed proof of the reply
+				if code == 200 {
+					rep.Add(fmt.Sprintf("proof list %s -> 200", proofListName(c.Fault.Proofs)), 1)
+					if clause, msg := servedProof(body, c.Fault.Proofs, sentProofs); clause != "" {
+						rep.Violate(fp+":"+clause, fmt.Sprintf("%s with backend reply %s: %s", c.Ep, fdesc, msg), fc)
+					}
+					if rl != nil && (len(rl.Statuses) != 1 || rl.Statuses[0] != code) {
+						rep.Violate(fp+":requestlog-status", fmt.Sprintf("RequestLog.Status %v for HTTP %d", rl.Statuses, code), fc)
+					}
+					continue
+				}
+				if !inClass(code, "5xx") {
+					rep.Violate(fp+fmt.Sprintf(":want=5xx-or-a-well-formed-proof:got=%d", code), fmt.Sprintf("%s with backend reply %s: status %d: %s", c.Ep, fdesc, code, strings.TrimSpace(string(body))), fc)
 				}
 			} else if !inClass(code, fc.Expect) {
 				rep.Violate(fp+fmt.Sprintf(":want=%s:got=%d", fc.Expect, code), fmt.Sprintf("%s with backend fault %s: status %d, the property demands %s: %s", c.Ep, fdesc, code, fc.Expect, strings.TrimSpace(string(body))), fc)
